@@ -360,6 +360,15 @@ func (a *a13) checkFunc(f *ssa.Function, rules string) {
 						return ok && fieldVar(fa) == fv && sameObj(fa.X, base)
 					}
 					stays, _ := pathExists(f, in, isReturn, clears, nil)
+					if stays {
+						// `buf := w.buf; w.buf = nil; …; pool.Put(buf)`: the field was cleared between the
+						// load of the object and its put
+						if ld, isInstr := baseObj(v).(ssa.Instruction); isInstr {
+							if uncleared, _ := pathExists(f, ld, func(x ssa.Instruction) bool { return x == in }, clears, nil); !uncleared {
+								stays = false
+							}
+						}
+					}
 					r.Ob("A13a", name+"/field-cleared", p.Pos(in.Pos()), !stays, true, tern(!stays, "the field that held the object is overwritten before the function returns", "the object is returned to the pool but field "+fname(fv)+" still refers to it when the function returns: the next call through that field uses (or puts again) an object another goroutine may own"))
 				}
 			}
@@ -397,13 +406,25 @@ func (a *a13) checkFunc(f *ssa.Function, rules string) {
 			return
 		}
 		a.nSplice++
+		// the object was dereferenced for the splice: after it, the `== nil` edge of a test of the
+		// same pointer cannot be taken (`if dict != nil { putEvent(dict) }` as the common tail)
+		notNilEdge := func(bb *ssa.BasicBlock, si int) bool {
+			ifi, ok := bb.Instrs[len(bb.Instrs)-1].(*ssa.If)
+			if !ok {
+				return true
+			}
+			if cm, ok := cmpOf(CondEdge{ifi, si == 0}); ok && cm.Op == token.EQL && isNilConst(cm.Y) && sameObj(cm.X, base) {
+				return false
+			}
+			return true
+		}
 		leak, _ := pathExists(f, c, isReturn, func(x ssa.Instruction) bool {
 			if _, isDefer := x.(*ssa.Defer); isDefer {
 				return false
 			}
 			w := a.putArgOf(x)
 			return w != nil && sameObj(w, base)
-		}, nil)
+		}, notNilEdge)
 		for _, d := range deferred {
 			if sameObj(d, base) {
 				leak = false
